@@ -687,4 +687,111 @@ theorem x_dg_step (hl : H.Lawful) (kl : List Keylog.Key) (L : SealLaws Pc) (dcid
     split <;> split <;> first | rfl | simp_all
 
 end XDg
+section XFeed
+variable (maskFn : Dissect.MaskFn) (H : Crypto.Prims) (Pc : Cipher.Prims) (info : Nat → Pipeline.Info)
+
+/-- the captured frame `p` carries the datagram `d` -/
+structure CarriesX (c : QConn) (w : DgX → Bytes) (p : MainLoop.Pkt) (d : DgX) : Prop where
+  payload : p.payload = w d
+  ts : (info p.tag).ts = d.base.ts
+  dir : (p.src == c.client) = !d.base.srv
+
+theorem x_feed_step (hl : H.Lawful) (kl : List Keylog.Key) (L : SealLaws Pc) (dcid0 cr csel ch sh ca sa e : Bytes)
+    (sel selR : SuiteSel) (csR : Bytes) (hsel : selectSuite csel = some sel) (hselR : selectSuite csR = some selR)
+    (hkl : KeylogHas kl cr ch sh ca sa (some e))
+    (ho : (hashOf H sel.hash).outLen < 65536)
+    (hsa : sa.length = (hashOf H sel.hash).outLen) (hca : ca.length = (hashOf H sel.hash).outLen)
+    (t : Trk) (ecs : Option SuiteSel) (d : DgX) (hok : XDgOkE maskFn H Pc L dcid0 sel selR sh ch sa ca e t ecs d)
+    (rest : List CryptoIn) (c : QConn) (hr : c.raised = none)
+    (hst : HsSt H dcid0 sel ch sh ca sa t.keyed (feedPre H (params H Pc kl) (noOut c.st) d.dcid (sver d.ver)) t.tc t.ts
+      t.cc t.sc t.core)
+    (hinv : EInv H e ecs (feedPre H (params H Pc kl) (noOut c.st) d.dcid (sver d.ver)))
+    (htr : PTrace cr csel t.core (insOf d.base.longs ++ rest)) (p : MainLoop.Pkt)
+    (hcar : CarriesX info c (DgX.wire H Pc L dcid0 sel selR sh ch sa ca e) p d) :
+    let c' := (quicMachine maskFn H Pc info).feed c kl p d.dcid d.ver
+    c'.raised = none ∧
+    HsSt H dcid0 sel ch sh ca sa (t.dgx d).keyed (noOut c'.st) (t.dgx d).tc (t.dgx d).ts (t.dgx d).cc (t.dgx d).sc
+      (t.dgx d).core ∧
+    PTrace cr csel (t.dgx d).core rest ∧ EInv H e (ecsDgx t ecs d) (noOut c'.st) ∧
+    expo c'.st.out = expo c.st.out ++ (expo d.zrOut ++ expo d.base.shortOut) ∧
+    c'.opts = c.opts ∧ c'.server = c.server ∧ c'.client = c.client ∧ c'.serverMac = c.serverMac ∧
+    c'.clientMac = c.clientMac ∧ c'.ipv6 = c.ipv6 := by
+  obtain ⟨w1, w2, w3⟩ := hcar
+  obtain ⟨a1, a2, a3, a4, a5⟩ := x_dg_step maskFn H Pc hl kl L dcid0 cr csel ch sh ca sa e sel selR csR hsel hselR hkl ho hsa
+    hca t ecs d hok rest (noOut c.st) hst hinv htr
+  generalize hr0 : handleDatagram maskFn H (params H Pc kl) (noOut c.st) (!d.base.srv) d.dcid (sver d.ver) d.base.ts
+    (DgX.wire H Pc L dcid0 sel selR sh ch sa ca e d) = r0 at a1 a2 a4 a5
+  have hfeed : (quicMachine maskFn H Pc info).feed c kl p d.dcid d.ver =
+      { c with st := wo c.st.out r0.1, raised := r0.2 } := by
+    simp only [quicMachine, hr]
+    rw [w1, w2, w3]
+    have hw : handleDatagram maskFn H (params H Pc kl) c.st (!d.base.srv) d.dcid (sver d.ver) d.base.ts
+        (DgX.wire H Pc L dcid0 sel selR sh ch sa ca e d) = (wo c.st.out r0.1, r0.2) := by
+      conv => lhs; rw [← wo_noOut c.st]
+      rw [handleDatagram_wo, hr0]
+    rw [hw]
+  intro c'
+  have hc' : c' = { c with st := wo c.st.out r0.1, raised := r0.2 } := hfeed
+  rw [hc']
+  refine ⟨a1, ?_, a3, ?_, ?_, rfl, rfl, rfl, rfl, rfl, rfl⟩
+  · show HsSt H dcid0 sel ch sh ca sa _ (noOut (wo c.st.out r0.1)) _ _ _ _ _
+    rw [noOut_wo]; exact a2
+  · show EInv H e _ (noOut (wo c.st.out r0.1))
+    rw [noOut_wo]; exact eInv_noOut H e _ _ a4
+  · show expo (c.st.out ++ r0.1.out) = _
+    rw [expo_append, a5]
+
+/-- every datagram against the bookkeeping and the last-call suite after the previous ones -/
+def XDgsE (L : SealLaws Pc) (dcid0 : Bytes) (sel selR : SuiteSel) (sh ch sa ca e : Bytes) :
+    Trk → Option SuiteSel → List DgX → Prop
+  | _, _, [] => True
+  | t, ecs, d :: ds => XDgOkE maskFn H Pc L dcid0 sel selR sh ch sa ca e t ecs d ∧
+      XDgsE L dcid0 sel selR sh ch sa ca e (t.dgx d) (ecsDgx t ecs d) ds
+
+theorem feedPre_x (P : Params Tls) (dcid0 : Bytes) (s : St Tls) (hi : HsInv H dcid0 s) (d : DgX) :
+    feedPre H P s d.dcid (sver d.ver) = s := by
+  unfold DgX.ver
+  split
+  · exact feedPre_est H _ s _ (by rw [hi.init]; rfl) hi.ver
+  · exact feedPre_hs H _ dcid0 _ s hi
+
+theorem x_feed_rest (hl : H.Lawful) (L : SealLaws Pc) (dcid0 cr csel ch sh ca sa e : Bytes)
+    (sel selR : SuiteSel) (csR : Bytes) (hsel : selectSuite csel = some sel) (hselR : selectSuite csR = some selR)
+    (ho : (hashOf H sel.hash).outLen < 65536)
+    (hsa : sa.length = (hashOf H sel.hash).outLen) (hca : ca.length = (hashOf H sel.hash).outLen)
+    (items : List (List Keylog.Key × MainLoop.Pkt × DgX)) (hkl : ∀ x ∈ items, KeylogHas x.1 cr ch sh ca sa (some e))
+    (t : Trk) (ecs : Option SuiteSel) (c : QConn) (hr : c.raised = none)
+    (hst : HsSt H dcid0 sel ch sh ca sa t.keyed (noOut c.st) t.tc t.ts t.cc t.sc t.core)
+    (hinv : EInv H e ecs (noOut c.st))
+    (hok : XDgsE maskFn H Pc L dcid0 sel selR sh ch sa ca e t ecs (items.map (·.2.2)))
+    (htr : PTrace cr csel t.core (allInsM ((items.map (·.2.2)).map (·.base))))
+    (hcar : ∀ x ∈ items, CarriesX info c (DgX.wire H Pc L dcid0 sel selR sh ch sa ca e) x.2.1 x.2.2) :
+    let c' := xFeedAll (quicMachine maskFn H Pc info) c items
+    let t' := (items.map (·.2.2)).foldl Trk.dgx t
+    c'.raised = none ∧ HsSt H dcid0 sel ch sh ca sa t'.keyed (noOut c'.st) t'.tc t'.ts t'.cc t'.sc t'.core ∧
+    expo c'.st.out = expo c.st.out ++ expo ((items.map (·.2.2)).flatMap fun d => d.zrOut ++ d.base.shortOut) ∧
+    c'.opts = c.opts ∧ c'.server = c.server ∧ c'.client = c.client ∧ c'.serverMac = c.serverMac ∧
+    c'.clientMac = c.clientMac ∧ c'.ipv6 = c.ipv6 := by
+  induction items generalizing t ecs c with
+  | nil => exact ⟨hr, hst, by simp [xFeedAll, expo], rfl, rfl, rfl, rfl, rfl, rfl⟩
+  | cons it rest ih =>
+    obtain ⟨kl, p, d⟩ := it
+    obtain ⟨hd, hds⟩ := hok
+    have htr' : PTrace cr csel t.core (insOf d.base.longs ++ allInsM ((rest.map (·.2.2)).map (·.base))) := by
+      simpa [allInsM, List.flatMap_cons] using htr
+    have hpre : feedPre H (params H Pc kl) (noOut c.st) d.dcid (sver d.ver) = noOut c.st :=
+      feedPre_x H _ dcid0 _ hst.inv d
+    obtain ⟨b1, b2, b3, b4, b5, b6, b7, b8, b9, b10, b11⟩ := x_feed_step maskFn H Pc info hl kl L dcid0 cr csel ch sh ca sa e sel
+      selR csR hsel hselR (hkl (kl, p, d) (List.mem_cons_self ..)) ho hsa hca t ecs d hd _ c hr (by rw [hpre]; exact hst)
+      (by rw [hpre]; exact hinv) htr' p (hcar (kl, p, d) (List.mem_cons_self ..))
+    obtain ⟨i1, i2, i3, i4, i5, i6, i7, i8, i9⟩ := ih (fun x hx => hkl x (List.mem_cons_of_mem _ hx)) (t.dgx d) _ _ b1 b2 b4 hds b3
+      (fun x hx => by
+        obtain ⟨u1, u2, u3⟩ := hcar x (List.mem_cons_of_mem _ hx)
+        exact ⟨u1, u2, by rw [b8]; exact u3⟩)
+    refine ⟨i1, i2, ?_, i4.trans b6, i5.trans b7, i6.trans b8, i7.trans b9, i8.trans b10, i9.trans b11⟩
+    show expo (xFeedAll _ _ rest).st.out = _
+    rw [i3, b5]
+    simp only [List.map_cons, List.flatMap_cons, expo_append, List.append_assoc]
+
+end XFeed
 end TLX.Props.C02Capstone4
